@@ -86,7 +86,7 @@ func (m *Machine) bigBin(op string, a, b *smt.Term) *smt.Term {
 		ua, ub := bvUpperBits(a), bvUpperBits(b)
 		switch op {
 		case "add":
-			if maxInt(ua, ub)+1 >= w {
+			if maxInt(ua, ub)+1 >= w && maxInt(bvSignedBits(a), bvSignedBits(b))+1 >= w {
 				// no structural bound: the solver decides whether the sum can leave the model width on this path
 				wide := smt.BvAdd(smt.Sext(a, 1), smt.Sext(b, 1))
 				if !m.Branch(smt.Eq(wide, smt.Sext(smt.BvAdd(a, b), 1))) {
@@ -111,7 +111,7 @@ func (m *Machine) bigBin(op string, a, b *smt.Term) *smt.Term {
 					}
 				}
 			}
-			if ua+ub >= w {
+			if ua+ub >= w && bvSignedBits(a)+bvSignedBits(b) >= w {
 				// sufficient: both factors fit in half the width (signed); decided by the solver on this path
 				h := w/2 - 1
 				fits := func(x *smt.Term) *smt.Term {
@@ -647,4 +647,49 @@ func (m *Machine) forceLazy(l LazyBytes) SliceVal {
 		m.assumeRaw(smt.Eq(sum, ax))
 	}
 	return m.bytesSlice(bs)
+}
+
+// bvSignedBits: a structural bound s such that the term, read as a signed number, fits in s bits (w when nothing
+// is known). A non-negative value below 2^u fits in u+1 bits; sums and differences need one bit more than their
+// operands, products the sum of their operands' bits.
+func bvSignedBits(t *smt.Term) int {
+	w := t.Sort.W
+	if u := bvUpperBits(t); u < w {
+		return u + 1
+	}
+	clamp := func(x int) int {
+		if x > w {
+			return w
+		}
+		return x
+	}
+	switch t.Op {
+	case smt.OConst:
+		return clamp(t.SignedVal().BitLen() + 1)
+	case smt.OSext:
+		return clamp(bvSignedBits(t.Args[0]))
+	case smt.OBvAdd, smt.OBvSub:
+		m := 0
+		for _, a := range t.Args {
+			if b := bvSignedBits(a); b > m {
+				m = b
+			}
+		}
+		return clamp(m + len(t.Args) - 1)
+	case smt.OBvNeg:
+		return clamp(bvSignedBits(t.Args[0]) + 1)
+	case smt.OBvMul:
+		m := 0
+		for _, a := range t.Args {
+			m += bvSignedBits(a)
+		}
+		return clamp(m)
+	case smt.OIte:
+		a, b := bvSignedBits(t.Args[1]), bvSignedBits(t.Args[2])
+		if b > a {
+			a = b
+		}
+		return clamp(a)
+	}
+	return w
 }
